@@ -110,7 +110,16 @@ def install_xml(it: Interp, vfs: VFS) -> None:
     def tostring(el: Any, encoding: Optional[str] = None, method: str = "xml", **kw: Any) -> Any:
         if isinstance(el, XTree):
             el = el.getroot()
-        return ET.tostring(to_et(el), encoding=encoding, method=method, **kw)
+        e = to_et(el)
+        if getattr(el, "_indent", None) is not None:
+            ET.indent(e, space=el._indent[0], level=el._indent[1])
+        return ET.tostring(e, encoding=encoding, method=method, **kw)
+
+    def indent(tree: Any, space: str = "  ", level: int = 0) -> None:
+        el = tree.getroot() if isinstance(tree, XTree) else tree
+        if not isinstance(el, XEl):
+            raise AbsRaise("TypeError: indent() expects an element")
+        el._indent = (space, level)      # whitespace-only text/tail: applied when the tree is serialised
 
     def parse(path: Any) -> XTree:
         if path not in vfs.files:
@@ -123,6 +132,7 @@ def install_xml(it: Interp, vfs: VFS) -> None:
         it.native[f"{pre}.SubElement"] = subelement
         it.native[f"{pre}.ElementTree"] = lambda el=None: XTree(el)
         it.native[f"{pre}.tostring"] = tostring
+        it.native[f"{pre}.indent"] = indent
         it.native[f"{pre}.parse"] = parse
         it.native[f"{pre}.fromstring"] = lambda data: parse_xml(data).getroot()
     it.native["xml.dom.minidom.parseString"] = lambda data: MiniDoc(data)
